@@ -280,6 +280,27 @@ def gen(tier, seed, algo):
                 recs.append(rec)
                 meta[rid] = {"algo": algo, "A": X.describe(), "B": Y.describe(), "clsA": clsX, "clsB": clsY,
                              "lift": [lift[0], lift[1].tolist(), lift[2].tolist()]}
+    # ball-inflated bodies (sphere, capsule, Margin wrappers) overlapping a polytope with disjoint cores at the smallest feature sizes
+    # of the domain: the depth is exact (rA + rB - core distance), the expanding polytope gets faces far below 1e-4 wide
+    poly_s, _ = NW.spec_pool()
+    rounds_s = [x for x in poly_s if x["kind"] in ("sphere", "capsule")]
+    flats_s = [x for x in poly_s if x["kind"] in ("box", "hull")]
+    for i in range(160 if tier == "quick" else 4000):
+        MA, _ = rng.choice(S.CUBE); MB, _ = rng.choice(S.CUBE)
+        A = NW.Body(rng.choice(rounds_s), MA, [rng.randint(-2, 2) for _ in range(3)], rng.choice((0, 0, 1)))
+        B0 = NW.Body(rng.choice(flats_s), MB, [rng.randint(-2, 2) for _ in range(3)], rng.choice((0, 0, 0, 1)))
+        rr = float(A.spec["r"]) + A.margin + B0.margin
+        B, _ = NW.graze(A, B0, rng, 0.1 * rr, ks=(-1, -3, -5, -8))
+        lift = NW.random_lift(rng, A, B, "tiny")
+        for X, Y in ((A, B), (B, A)):
+            n += 1
+            rid = f"e{n}"
+            rec = measure_epa(rid, X, Y, lift, None, None) if algo == "epa" else measure_mpr(rid, X, Y, lift, None, None)
+            if rec is None:
+                continue
+            recs.append(rec)
+            meta[rid] = {"algo": algo, "A": X.describe(), "B": Y.describe(), "clsA": X.classes()[0], "clsB": Y.classes()[0],
+                         "lift": [lift[0], lift[1].tolist(), lift[2].tolist()], "family": "tiny-inflated"}
     # pinned scenes of the known findings (deterministic)
     OCT = {"kind": "hull", "V": S.HULLS["octa"]}
     if algo == "epa":
